@@ -201,6 +201,14 @@ def run(rep, tier, seed, replay=None):
                 stats[k] = stats.get(k, 0) + int(v)
     stats['engine_hangs_skipped'] = hung2
     rep.cov['oracle'] = stats
+    diags = [l for l in lines if l.startswith('DIAG')]
+    if diags:
+        # stronger than the property (no premise on the ancestors): reported, never a violation by itself
+        rep.cov['diagnostics'] = {'what': 'a size is not the difference of the rounded absolute edges (C13_size_from_absolute_edges)',
+                                  'count': stats.get('diagnostics', 0), 'first': [d[:300] for d in diags[:3]], 'seed': seed}
+        if rep.broken:
+            rep.add_broken('diagnostic', 'size = round(absolute far edge) - round(absolute near edge), any ancestors',
+                           {'seed': seed, 'first': [d[:300] for d in diags[:3]], 'cmd': 'vh c13 oracle1 %d <idx>' % seed})
     fails = [l.split(' ', 2) for l in lines if l.startswith('FAIL')]
     for f in fails[:3]:
         idx = int(f[1])
